@@ -750,7 +750,7 @@ func c08Known(c *C08Case, o *c08Obs) string {
 // RunC08 is the check for property C08.
 func RunC08(e *Env) (int, error) {
 	ev := e.Ev
-	n := int64(e.Pick(6000, 150000))
+	n := e.N(6000, 150000)
 
 	fn := func(run int64) harness.RunResult {
 		r := gen.New(e.Seed, "C08", run)
@@ -766,6 +766,14 @@ func RunC08(e *Env) (int, error) {
 				js, _ := json.Marshal(c)
 				fmt.Fprintf(os.Stderr, "SLOW %.1fs run=%d status=%d crash=%q stepsout=%v cpuout=%v %s\n", d.Seconds(), run, out.Status, out.Crash, out.StepsOut, out.CPUOut, short(string(js), 600))
 			}
+		}
+		if out.Crash == "" && c.Inv.Kind == "stock" {
+			// the Go runtime picks the iteration order: which of several errors is reported may vary
+			e.Log(run, c, out.Status == 0, out.Stdout)
+		} else if out.Crash == "" {
+			e.Log(run, c, out.Status, out.Stdout, out.Stderr, out.Steps, out.Sig, out.Injected)
+		} else {
+			e.Log(run, c, "crash")
 		}
 		fired := false
 		for _, f := range c.Faults {
